@@ -40,7 +40,11 @@ export function splitLines(multiline: string): string[] {
   // Split lines (retaining newlines)
   // We use !postfix, as we also match empty string,
   // so we are guaranteed to get at elast one match
-  return multiline.match(/^.*(\r\n|\r|\n|$)/gm)!;
+  // Lines end at the same separators as for Python's str.splitlines, since
+  // the line based diffs are computed by the server
+  return multiline.match(
+    /(?<=^|[\n\r\v\f\x1c-\x1e\x85\u2028\u2029])[^\n\r\v\f\x1c-\x1e\x85\u2028\u2029]*(\r\n|[\n\r\v\f\x1c-\x1e\x85\u2028\u2029]|$)/g,
+  )!;
 }
 
 /**
